@@ -28,7 +28,8 @@ def one(d, nosuite=False):
     d = os.path.abspath(d)
     meta = json.load(open(os.path.join(d, "meta.json")))
     pid = meta["property"]
-    name = "%s-%s" % (pid, os.path.basename(d))
+    wave = "w2-" if "/seed2/" in d else ("w3-" if "/seed3/" in d else "")
+    name = "%s-%s%s" % (pid, wave, os.path.basename(d))
     dest = os.path.join(V, "seeded", name)
     tmp = tempfile.mkdtemp(prefix="collect_")
     wt = os.path.join(tmp, "r")
